@@ -42,6 +42,12 @@ func runSmall(c *core.Ctx) []core.Obligation {
 	smallBitOrZeroMask(c, b)
 	smallRawVarintByte(c, b)
 	smallSkipCoalescedBool(c, b)
+	smallCoalesceValueIndependent(c, b)
+	smallRuneErrorSize(c, b)
+	smallRollbackNoEffect(c, b)
+	smallEmbeddedPointerAccessors(c, b)
+	smallMarshalerOutputCompacted(c, b)
+	smallTimeCanFail(c, b)
 	smallStringOptionNull(c, b)
 	smallStringOptionMarshaler(c, b)
 	return b.out
@@ -960,6 +966,444 @@ func smallRawVarintByte(c *core.Ctx, b *ob) {
 	}
 	if n == 0 {
 		b.addP(props, core.Discharged, "raw-varint-byte:none", "proto", "no integer is written as a raw byte outside encodeVarint: every length and tag goes through the varint encoder")
+	}
+}
+
+// S23 — time.Time.MarshalJSON fails for times RFC 3339 cannot express (year outside [0,9999],
+// zone offset of 24 hours or more), and encoding/json reports that error. The built-in time
+// encoder bypasses MarshalJSON for speed; it must at least be able to fail: an encoder with no
+// error path writes "10000-01-01T00:00:00Z" where the standard library returns an error.
+func smallTimeCanFail(c *core.Ctx, b *ob) {
+	props := []string{"C01"}
+	key := "time:encoder-can-fail"
+	fn := c.Lookup("json.(encoder).encodeTime")
+	if fn == nil {
+		b.addP(props, core.Undecided, key, "-", "json.(encoder).encodeTime not found")
+		return
+	}
+	fails := false
+	for _, r := range returnsOf(fn) {
+		if len(r.Results) == 2 && !isNilConst(r.Results[1]) {
+			fails = true
+		}
+	}
+	if fails {
+		b.addP(props, core.Discharged, key, c.FuncPos(fn), "encodeTime has an error path")
+	} else {
+		b.addP(props, core.Violation, key, c.FuncPos(fn), "encodeTime formats the time and always returns a nil error: a time.Time whose year is outside [0,9999] (or whose zone offset is 24 hours or more) is written as a string that is not RFC 3339, where encoding/json returns the error of Time.MarshalJSON")
+	}
+}
+
+// S22 — encoding/json compacts what MarshalJSON methods and RawMessage values provide (compact()
+// in marshalerEncoder / addrMarshalerEncoder), with or without HTML escaping. The two encoders of
+// such output must hand back the result of the compaction routine on every successful path, not
+// the bytes as provided: `{ "a" : 1 }` is written {"a":1} by the standard library under
+// SetEscapeHTML(false) as well.
+func smallMarshalerOutputCompacted(c *core.Ctx, b *ob) {
+	props := []string{"C01"}
+	for _, name := range []string{"json.(encoder).encodeRawMessage", "json.(encoder).encodeJSONMarshaler"} {
+		key := "marshaler-output:compacted:" + name
+		fn := c.Lookup(name)
+		if fn == nil {
+			b.addP(props, core.Undecided, key, "-", name+" not found")
+			continue
+		}
+		n, bad := 0, ""
+		for _, r := range returnsOf(fn) {
+			if len(r.Results) != 2 || !isNilConst(r.Results[1]) {
+				continue
+			}
+			call, ok := r.Results[0].(*ssa.Call)
+			if !ok {
+				bad = c.InstrPos(r)
+				continue
+			}
+			if f := staticCallee(call.Common()); f != nil {
+				n++
+				if !strings.HasPrefix(f.Name(), "appendCompact") {
+					bad = c.InstrPos(r)
+				}
+				continue
+			}
+			if bi, isB := call.Call.Value.(*ssa.Builtin); isB && bi.Name() == "append" && len(call.Call.Args) == 2 {
+				if k, isK := call.Call.Args[1].(*ssa.Const); isK && k.Value != nil {
+					continue // a literal (null)
+				}
+				n++
+				bad = c.InstrPos(r)
+			}
+		}
+		switch {
+		case n == 0:
+			b.addP(props, core.Undecided, key, c.FuncPos(fn), "no successful return that writes the provided JSON found")
+		case bad != "":
+			b.addP(props, core.Violation, key, bad, name+" appends the JSON text provided by the value as it is on a successful path (EscapeHTML off): insignificant whitespace inside it is kept, where encoding/json compacts the output of Marshalers and RawMessage values under every SetEscapeHTML setting")
+		default:
+			b.addP(props, core.Discharged, key, c.FuncPos(fn), "every successful path returns the result of the compaction routine")
+		}
+	}
+}
+
+// S21 — a field promoted through an embedded struct pointer is reached in two steps: load the
+// pointer at the embedded field's offset, then add the field's offset inside the pointed-to
+// struct. appendStructFields rewrites the field's offset to the pointer's slot and wraps its codec
+// to do the second step; everything else that is applied to base+offset must be wrapped the same
+// way — the omitempty test (structField.empty) otherwise examines the pointer slot as if it were
+// the field (a non-nil pointer is never "empty": "version":"" is written despite omitempty).
+func smallEmbeddedPointerAccessors(c *core.Ctx, b *ob) {
+	props := []string{"C01"}
+	key := "embedded-pointer:empty-follows-the-pointer"
+	fn := c.Lookup("json.appendStructFields")
+	if fn == nil {
+		b.addP(props, core.Undecided, key, "-", "json.appendStructFields not found")
+		return
+	}
+	n, bad := 0, ""
+	for _, blk := range fn.Blocks {
+		var codecStore *ssa.Store
+		emptyStored := false
+		for _, in := range blk.Instrs {
+			st, ok := in.(*ssa.Store)
+			if !ok {
+				continue
+			}
+			fa, ok := st.Addr.(*ssa.FieldAddr)
+			if !ok {
+				continue
+			}
+			switch fieldAddrID(fa) {
+			case "json.structField.codec":
+				if call, isCall := st.Val.(*ssa.Call); isCall {
+					if f := staticCallee(call.Common()); f != nil && f.Name() == "constructEmbeddedStructPointerCodec" {
+						codecStore = st
+					}
+				}
+			case "json.structField.empty":
+				if call, isCall := st.Val.(*ssa.Call); isCall {
+					if f := staticCallee(call.Common()); f != nil && f.Blocks != nil {
+						emptyStored = true
+					}
+				}
+			}
+		}
+		if codecStore == nil {
+			continue
+		}
+		n++
+		if !emptyStored {
+			bad = c.InstrPos(codecStore)
+		}
+	}
+	switch {
+	case n == 0:
+		b.addP(props, core.Undecided, key, c.FuncPos(fn), "no store of constructEmbeddedStructPointerCodec(...) into a field's codec found")
+	case bad != "":
+		b.addP(props, core.Violation, key, bad, "appendStructFields wraps the codec of a field promoted through an embedded struct pointer and moves its offset to the pointer's slot, but leaves its emptiness test as it was: omitempty then examines the (non-nil) embedded pointer instead of the field, and an empty field is written where encoding/json omits it")
+	default:
+		b.addP(props, core.Discharged, key, c.FuncPos(fn), "codec and emptiness test are both rewritten to go through the embedded pointer")
+	}
+}
+
+// S20 — json.encodeStruct rolls a field back when its encoder returns the rollback sentinel (a nil
+// embedded struct pointer): the bytes of the key are cut off and the loop goes on as if the field
+// had not been there. Every loop-carried variable other than the buffer must therefore reach the
+// next iteration unchanged on that edge — a field counter incremented before the encoder ran
+// makes the next key start with a comma: {,"data":"x"}.
+func smallRollbackNoEffect(c *core.Ctx, b *ob) {
+	props := []string{"C01"}
+	key := "rollback:iteration-without-effect"
+	fn := c.Lookup("json.(encoder).encodeStruct")
+	if fn == nil {
+		b.addP(props, core.Undecided, key, "-", "json.(encoder).encodeStruct not found")
+		return
+	}
+	var arm *ssa.BasicBlock
+	for _, blk := range fn.Blocks {
+		for _, in := range blk.Instrs {
+			bo, ok := in.(*ssa.BinOp)
+			if !ok || bo.Op != token.EQL {
+				continue
+			}
+			isSentinel := func(v ssa.Value) bool {
+				mi, ok := v.(*ssa.MakeInterface)
+				return ok && strings.HasSuffix(mi.X.Type().String(), "json.rollback")
+			}
+			if !isSentinel(bo.X) && !isSentinel(bo.Y) {
+				continue
+			}
+			for _, ref := range *bo.Referrers() {
+				if ifi, isIf := ref.(*ssa.If); isIf {
+					arm = ifi.Block().Succs[0]
+				}
+			}
+		}
+	}
+	if arm == nil {
+		b.addP(props, core.Undecided, key, c.FuncPos(fn), "the comparison of the field encoder's error with rollback{} was not found")
+		return
+	}
+	var h *ssa.BasicBlock
+	for _, x := range loopHeaders(fn) {
+		if loopBlocks(x)[arm] {
+			h = x
+		}
+	}
+	if h == nil {
+		b.addP(props, core.Undecided, key, c.FuncPos(fn), "the rollback arm is not inside a loop")
+		return
+	}
+	// the arm must lead straight back to the header
+	latch := arm
+	for steps := 0; steps < 4 && len(latch.Succs) == 1 && latch.Succs[0] != h; steps++ {
+		latch = latch.Succs[0]
+	}
+	idx := -1
+	for i, p := range h.Preds {
+		if p == latch && len(latch.Succs) == 1 {
+			idx = i
+		}
+	}
+	if idx < 0 {
+		b.addP(props, core.Undecided, key, c.PosOf(arm.Instrs[0].Pos()), "the rollback arm does not continue with the next field directly")
+		return
+	}
+	bad := ""
+	cut := false
+	for _, in := range h.Instrs {
+		phi, ok := in.(*ssa.Phi)
+		if !ok {
+			break
+		}
+		e := phi.Edges[idx]
+		if strings.Contains(phi.Comment, "rangeindex") {
+			continue
+		}
+		if phi.Type().String() == "[]byte" {
+			if _, isSlice := e.(*ssa.Slice); isSlice {
+				cut = true
+			} else {
+				bad = "the buffer is not cut back to where the key started"
+			}
+			continue
+		}
+		// unchanged: the φ itself, possibly through φs that only merge it
+		same := func(v ssa.Value) bool {
+			seen := map[ssa.Value]bool{}
+			var walk func(v ssa.Value) bool
+			walk = func(v ssa.Value) bool {
+				if v == ssa.Value(phi) {
+					return true
+				}
+				if seen[v] {
+					return true
+				}
+				seen[v] = true
+				q, isPhi := v.(*ssa.Phi)
+				if !isPhi {
+					return false
+				}
+				for _, x := range q.Edges {
+					if !walk(x) {
+						return false
+					}
+				}
+				return true
+			}
+			return walk(v)
+		}
+		// err and k are reassigned on every iteration before use; only state read before being
+		// written matters: a variable whose every use in the body is dominated by a redefinition
+		// is dead on this edge. Keep it simple: integers and booleans carry state.
+		switch phi.Type().Underlying().String() {
+		case "int", "bool":
+			if !same(e) {
+				bad = fmt.Sprintf("variable %q reaches the next field changed although the rolled-back field wrote nothing", phi.Comment)
+			}
+		}
+	}
+	switch {
+	case bad != "":
+		b.addP(props, core.Violation, key, c.PosOf(arm.Instrs[0].Pos()), "encodeStruct: after a field is rolled back (nil embedded struct pointer), "+bad+": the next key is written with a leading comma, or without a needed one")
+	case !cut:
+		b.addP(props, core.Undecided, key, c.PosOf(arm.Instrs[0].Pos()), "no loop-carried buffer found on the rollback edge")
+	default:
+		b.addP(props, core.Discharged, key, c.PosOf(arm.Instrs[0].Pos()), "the rollback edge cuts the buffer and leaves every counter unchanged")
+	}
+}
+
+// S19 — utf8.DecodeRune* reports an invalid encoding as (RuneError, 1); a validly encoded U+FFFD
+// is (RuneError, 3). Code that replaces or escapes "invalid UTF-8" must test both, as
+// encoding/json does: testing the rune alone rewrites a legitimate U+FFFD in the input.
+func smallRuneErrorSize(c *core.Ctx, b *ob) {
+	props := []string{"C01"}
+	n := 0
+	for _, fn := range c.RepoFunctions() {
+		if fn.Blocks == nil {
+			continue
+		}
+		for _, blk := range fn.Blocks {
+			for _, in := range blk.Instrs {
+				call, ok := in.(*ssa.Call)
+				if !ok {
+					continue
+				}
+				name := calleeName(call.Common())
+				if !strings.HasPrefix(name, "unicode/utf8.DecodeRune") && !strings.HasPrefix(name, "unicode/utf8.DecodeLastRune") {
+					continue
+				}
+				var runeV, sizeV ssa.Value
+				for _, ref := range *call.Referrers() {
+					if ex, isEx := ref.(*ssa.Extract); isEx {
+						if ex.Index == 0 {
+							runeV = ex
+						} else {
+							sizeV = ex
+						}
+					}
+				}
+				if runeV == nil {
+					continue
+				}
+				isRuneTest := func(v ssa.Value) bool {
+					bo, ok := v.(*ssa.BinOp)
+					if !ok || bo.Op != token.EQL {
+						return false
+					}
+					k, isK := constInt(bo.Y)
+					return bo.X == runeV && isK && k == 0xFFFD
+				}
+				isSizeTest := func(v ssa.Value) bool {
+					bo, ok := v.(*ssa.BinOp)
+					if !ok || bo.Op != token.EQL || sizeV == nil {
+						return false
+					}
+					k, isK := constInt(bo.Y)
+					return bo.X == sizeV && isK && k == 1
+				}
+				tested := false
+				bad := ""
+				for _, blk2 := range fn.Blocks {
+					hasRune, hasSize := false, false
+					for _, a := range trueAtoms(blk2, 0) {
+						if isRuneTest(a) {
+							hasRune = true
+						}
+						if isSizeTest(a) {
+							hasSize = true
+						}
+					}
+					if !hasRune {
+						continue
+					}
+					tested = true
+					effects := false
+					for _, in2 := range blk2.Instrs {
+						switch x := in2.(type) {
+						case *ssa.Store:
+							effects = true
+						case *ssa.Call:
+							if _, isB := x.Call.Value.(*ssa.Builtin); isB {
+								effects = true
+							}
+						}
+					}
+					if effects && !hasSize {
+						bad = c.PosOf(blk2.Instrs[0].Pos())
+					}
+				}
+				if !tested {
+					continue
+				}
+				n++
+				key := fmt.Sprintf("runeerror:size-one:%s", shortName(fn))
+				if bad != "" {
+					b.addP(props, core.Violation, key, c.InstrPos(call), shortName(fn)+" treats every utf8.RuneError as an invalid encoding without testing that the decoded size is 1: a validly encoded U+FFFD in the input (EF BF BD) is rewritten (escaped) where encoding/json copies it through")
+				} else {
+					b.addP(props, core.Discharged, key, c.InstrPos(call), "RuneError is acted on only together with size == 1")
+				}
+			}
+		}
+	}
+	if n == 0 {
+		b.addP(props, core.Undecided, "runeerror:size-one", "-", "no utf8.DecodeRune* result compared with RuneError found (encodeString's invalid-UTF-8 replacement)")
+	}
+}
+
+// S16b — thrift writer side of bool coalescing: under the feature every bool field's value travels
+// in the header (type TRUE or FALSE) and no payload follows, whatever the value. Whether the
+// payload encoder runs must therefore not depend on the value (isTrue): a false bool written with
+// a FALSE header *and* a payload byte is read back as FALSE followed by a STOP.
+func smallCoalesceValueIndependent(c *core.Ctx, b *ob) {
+	props := []string{"C04", "C13"}
+	key := "coalesce:payload-skipped-for-both-values"
+	fn := c.Lookup("thrift.(*structEncoder).encode")
+	if fn == nil {
+		b.addP(props, core.Undecided, key, "-", "thrift.(*structEncoder).encode not found")
+		return
+	}
+	var payload *ssa.Call
+	for _, blk := range fn.Blocks {
+		for _, in := range blk.Instrs {
+			call, ok := in.(*ssa.Call)
+			if !ok || staticCallee(call.Common()) != nil || call.Common().IsInvoke() {
+				continue
+			}
+			if f, isLoad := fieldOfLoad(call.Common().Value); isLoad && strings.HasSuffix(f, ".encode") {
+				payload = call
+			}
+		}
+	}
+	if payload == nil {
+		b.addP(props, core.Undecided, key, c.FuncPos(fn), "the call of the field's payload encoder (f.encode) was not found")
+		return
+	}
+	dependsOnValue := ""
+	seen := map[ssa.Value]bool{}
+	var walk func(v ssa.Value)
+	walk = func(v ssa.Value) {
+		if v == nil || seen[v] {
+			return
+		}
+		seen[v] = true
+		switch x := v.(type) {
+		case *ssa.Phi:
+			for _, e := range x.Edges {
+				walk(e)
+			}
+			// the conditions that select the φ's edges matter as well
+			for _, p := range x.Block().Preds {
+				if len(p.Instrs) > 0 {
+					if ifi, ok := p.Instrs[len(p.Instrs)-1].(*ssa.If); ok {
+						walk(ifi.Cond)
+					}
+				}
+			}
+		case *ssa.BinOp:
+			walk(x.X)
+			walk(x.Y)
+		case *ssa.UnOp:
+			if x.Op == token.NOT {
+				walk(x.X)
+			}
+		case *ssa.Call:
+			if f := staticCallee(x.Common()); f != nil && f.Name() == "isTrue" {
+				dependsOnValue = c.InstrPos(x)
+			}
+		}
+	}
+	n := 0
+	for _, e := range dominatingEdges(payload.Block()) {
+		// only the tests made after the header was prepared (inside the field loop)
+		n++
+		walk(e.ifi.Cond)
+	}
+	switch {
+	case n == 0:
+		b.addP(props, core.Undecided, key, c.InstrPos(payload), "the payload encoder call is not under any condition: bool coalescing cannot skip it")
+	case dependsOnValue != "":
+		b.addP(props, core.Violation, key, dependsOnValue, "whether a field's payload is written depends on the value of the bool (isTrue): under bool coalescing a false value then gets a FALSE header and a payload byte, which the reader takes for the header's own value followed by STOP — the rest of the struct is lost")
+	default:
+		b.addP(props, core.Discharged, key, c.InstrPos(payload), "the payload encoder is skipped by protocol feature and field type only")
 	}
 }
 
